@@ -173,6 +173,24 @@ func (w *world) datagram(sv *server, si int, kind string, req *ref4.P4) (*inject
 		p.UpdateOption(dhcpv4.OptGeneric(dhcpv4.OptionServerIdentifier, sid))
 	}
 	p.UpdateOption(dhcpv4.OptIPAddressLeaseTime(3600 * time.Second))
+	// fields and options the exchange rules do not look at, varied per datagram: a next-server address that is not the
+	// server identifier (a boot server), a relay address, a boot file, the usual lease options
+	if n%2 == 0 {
+		p.ServerIPAddr = net.IP{10, 200, byte(si + 1), byte(1 + n%250)}
+		p.BootFileName = "pxelinux.0"
+	}
+	if n%3 == 0 {
+		p.GatewayIPAddr = net.IP{10, 201, byte(si + 1), 1}
+	}
+	if n%5 < 2 {
+		p.ServerHostName = "boot-server"
+	}
+	if n%3 != 1 {
+		p.UpdateOption(dhcpv4.OptSubnetMask(net.IPMask{255, 255, 255, 0}))
+		p.UpdateOption(dhcpv4.OptRouter(net.IP{192, 168, byte(si + 1), 1}))
+		p.UpdateOption(dhcpv4.OptDNS(net.IP{10, 202, 0, 53}, net.IP{10, 202, 1, 53}))
+		p.UpdateOption(dhcpv4.OptRenewTimeValue(1800 * time.Second))
+	}
 	var nb [4]byte
 	binary.BigEndian.PutUint32(nb[:], uint32(n))
 	p.UpdateOption(dhcpv4.OptGeneric(dhcpv4.GenericOptionCode(224), nb[:]))
